@@ -37,3 +37,11 @@ Proof. exact slot_self_assign. Qed.
 Theorem C15_move_assign_transfers : S_slot_move_assign.
 Proof. exact slot_move_assign. Qed.
 Print Assumptions C15_move_assign_transfers.
+
+(* ---- slots that hold other slots by value or refer to slot variables through std::ref (NestModel.v) ---- *)
+Require NestSpec NestProofs.
+
+(* copying creates fresh slot_reps only; an existing one changes at most by being adopted when it had no parent *)
+Theorem C15_nested_copy_is_fresh : NestSpec.S_nest_copy_fresh.
+Proof. exact NestProofs.nest_copy_fresh. Qed.
+Print Assumptions C15_nested_copy_is_fresh.
